@@ -8,13 +8,125 @@
     work/c06/fix-*.patch (and C07's Pico repair); [cfg_without_*] has one repair missing. *)
 From Coq Require Import ZArith List String Bool.
 From L21 Require Import Base.Hex Raw.RawData Raw.RawGds Raw.RawFlatten Raw.RawGdsCheck Raw.RawGds_proofs Raw.RawFlatten_proofs.
-From L21 Require Gds.GdsData Raw.RawGdsSpec Geom.Transform.
+From L21 Require Gds.GdsData Raw.RawGdsSpec Geom.Transform Geom.TransformSpec.
 Import ListNotations.
 Local Open Scope Z_scope.
 
 Module G := Gds.GdsData.
 Module S := Raw.RawGdsSpec.
 Module T := Geom.Transform.
+Module TS := Geom.TransformSpec.
+
+(** * The property for the repaired importer
+
+    [S.right_angle g]: struct names are pairwise distinct and no struct of [g] takes the library
+    out of the specification's reach (every ANGLE a whole multiple of 90 degrees, lattice
+    displacements divisible by COLS / ROWS, boundaries closed, boxes rectangular: see
+    Raw/RawGdsSpec.v [SSilent]).  [S.malformed g]: some struct has a dangling or cyclic reference,
+    an array with COLS <= 0 or ROWS <= 0, a BOUNDARY or PATH without coordinates, an absolute
+    flag or a magnification other than 1 -- the cases for which the property demands an error.
+    [S.flat_equiv ly es fs]: the raw elements [es], read through the layer table [ly], are
+    exactly the shapes [fs] as a multiset of normal forms (a 4-vertex axis-parallel boundary and
+    the rectangle with the same corners are the same shape). *)
+
+(** (1) Whenever the repaired importer returns a library, that library has, for EVERY struct of
+    the GDSII library, a cell of that name with a layout, and flattening that cell gives exactly
+    the shapes obtained by flattening the struct under GDSII semantics: every boundary, box and
+    path on its layer / datatype with its coordinates, every SREF reflected, rotated and
+    translated, every AREF expanded to cols x rows placements on the lattice of its three points,
+    through every level of the hierarchy -- nothing dropped, nothing misplaced.  All libraries,
+    all depths, all coordinates; no size bound. *)
+Theorem C06_import_flatten :
+  forall g L, import_lib cfg_fixed [] g = IOk L -> S.right_angle g ->
+  forall s, In s (G.l_structs g) ->
+  exists k cell l fs es,
+    nth_error (lib_cells L) k = Some cell /\ c_name cell = str_of_bytes (G.s_name s) /\ c_layout cell = Some l /\
+    S.gds_flatten g (G.s_name s) = S.SOk fs /\ raw_flatten L k = T.Ok es /\
+    S.flat_equiv (lib_layers L) es fs.
+Proof. exact import_flatten_fixed. Qed.
+
+(** (1') The same for every importer variant that has the six repairs the statement needs
+    ([cfg_ok]: rows/cols check, degrees, lattice from the three points, empty XY, SREF
+    magnification, path width) and for every caller-supplied layer table whose purposes are the
+    importer's own `Other(n)` ([ly_inv]; the empty table in particular) -- whatever the capacity
+    expression, `Polygon::contains`, `Path::contains` and the unit table are. *)
+Theorem C06_import_flatten_gen :
+  forall c ly0 g L, cfg_ok c -> ly_inv ly0 -> S.names_distinct g = true ->
+  import_lib c ly0 g = IOk L ->
+  forall s, In s (G.l_structs g) -> S.gds_flatten g (G.s_name s) <> S.SSilent ->
+  exists k cell l fs es,
+    nth_error (lib_cells L) k = Some cell /\ c_name cell = str_of_bytes (G.s_name s) /\ c_layout cell = Some l /\
+    S.gds_flatten g (G.s_name s) = S.SOk fs /\ raw_flatten L k = T.Ok es /\
+    S.flat_equiv (lib_layers L) es fs.
+Proof. exact import_flatten_gen. Qed.
+
+(** (2) Malformed libraries: the repaired importer NEVER returns a library for them (so no
+    placement of a malformed library is ever silently dropped or misplaced).  Together with (4)
+    below the outcome is an error. *)
+Theorem C06_malformed_never_ok :
+  forall g L, import_lib cfg_fixed [] g = IOk L -> ~ S.malformed g.
+Proof. exact (fun g L => import_ok_not_malformed cfg_fixed [] g L cfg_fixed_ok (Forall_nil _)). Qed.
+
+(** (3) Single elements.  A BOUNDARY is imported as the polygon of its vertices, or -- for both
+    windings and all four start corners of an axis-parallel rectangle -- as the rectangle with the
+    same corners ([shape_rel]; same normal form); a BOX as the rectangle of its corners; a PATH as
+    the path with the same points and the magnitude of its width; each on the layer and purpose
+    that stand for its layer and datatype numbers. *)
+Theorem C06_boundary :
+  forall c ly b ly' e, import_boundary c ly b = IOk (ly', e) ->
+  exists gm, S.boundary_geom b = S.SOk gm /\ shape_rel (e_shape e) gm /\
+             S.norm_raw_shape (e_shape e) = S.norm_geom gm /\
+             (ly_inv ly -> resolve_lp ly' (e_layer e) (e_purpose e) = Some (G.b_layer b, G.b_datatype b)).
+Proof.
+  intros c ly b ly' e H. destruct (import_boundary_rel c ly b ly' e H) as [gm [H1 [H2 [_ H4]]]].
+  exists gm. split; [exact H1|]. split; [exact H2|]. split; [apply shape_rel_norm; exact H2|].
+  intro Hinv. symmetry in H4. exact (proj1 (proj2 (get_or_insert_spec _ _ _ _ _ _ Hinv H4))).
+Qed.
+Theorem C06_box :
+  forall ly b ly' e gm, import_box ly b = IOk (ly', e) -> S.box_geom b = S.SOk gm ->
+  shape_rel (e_shape e) gm /\ S.norm_raw_shape (e_shape e) = S.norm_geom gm.
+Proof.
+  intros ly b ly' e gm H Hg. destruct (import_box_rel ly b ly' e H) as [_ [H2 _]].
+  split; [apply H2; exact Hg | apply shape_rel_norm; apply H2; exact Hg].
+Qed.
+Theorem C06_path :
+  forall c ly p ly' e, fx_width c = true -> fx_emptyxy c = true -> import_path c ly p = IOk (ly', e) ->
+  exists gm, S.path_geom p = S.SOk gm /\ shape_rel (e_shape e) gm.
+Proof.
+  intros c ly p ly' e Hw He H. destruct (import_path_rel c ly p ly' e Hw H) as [gm [H1 [H2 _]]].
+  exists gm. split; [apply H1; eapply import_path_nonempty; eassumption | exact H2].
+Qed.
+(** a right-angle placement keeps the rectangle pattern: rectangles stay rectangles through the hierarchy *)
+Theorem C06_rectangles_stay_rectangles :
+  forall pl a b c d, S.rect4 a b c d = true ->
+  S.rect4 (TS.place_pt pl a) (TS.place_pt pl b) (TS.place_pt pl c) (TS.place_pt pl d) = true.
+Proof. exact rect4_place. Qed.
+
+(** (4) References.  An SREF becomes one instance whose exact transform (C12's [from_placement]
+    at K = Z) is the specification's reflect-rotate-translate placement; an AREF becomes
+    cols x rows instances, instance [i][j] at p0 + i*(p1-p0)/cols + j*(p2-p0)/rows, each with the
+    array's reflection and rotation. *)
+Theorem C06_sref_placement :
+  forall c cm r i, fx_mag c = true -> import_instance c cm r = IOk i ->
+  S.sref_placements r <> S.SErr /\ cm_get cm (G.sr_name r) = Some (i_cell i) /\
+  forall pls, S.sref_placements r = S.SOk pls -> exists pl, pls = [pl] /\ inst_rel i pl.
+Proof. exact import_instance_rel. Qed.
+Theorem C06_aref_lattice :
+  forall c cm a oi, fx_dims c = true -> fx_deg c = true -> fx_lattice c = true ->
+  import_instance_array c cm a = IOk oi ->
+  S.aref_placements a <> S.SErr /\
+  exists cell insts, oi = Some insts /\ cm_get cm (G.ar_name a) = Some cell /\
+     Forall (fun i => i_cell i = cell) insts /\
+     forall pls, S.aref_placements a = S.SOk pls -> Forall2 inst_rel insts pls.
+Proof. exact import_array_rel. Qed.
+
+(** (5) `Layout::flatten` one level at a time: whenever the recursion [rflat] on the library itself
+    (a cell's own elements, then instance by instance the flattening of the instantiated cell
+    moved by the instance's transform) is defined, the model of `flatten` (C12's [flatten_helper]
+    on the unfolded tree) returns exactly that list. *)
+Theorem C06_flatten_one_level :
+  forall L k es, rflat (S (List.length (lib_cells L))) (lib_cells L) k = Some es -> raw_flatten L k = T.Ok es.
+Proof. exact rflat_raw_flatten. Qed.
 
 (** * Closed witnesses: each defect of the importer as found breaks the property, and the
     proposed repair removes it.  One small library per defect. *)
@@ -203,6 +315,16 @@ Proof.
   eexists. split; [vm_compute; reflexivity|]. vm_compute. repeat split; reflexivity.
 Qed.
 
+Print Assumptions C06_import_flatten.
+Print Assumptions C06_import_flatten_gen.
+Print Assumptions C06_malformed_never_ok.
+Print Assumptions C06_boundary.
+Print Assumptions C06_box.
+Print Assumptions C06_path.
+Print Assumptions C06_rectangles_stay_rectangles.
+Print Assumptions C06_sref_placement.
+Print Assumptions C06_aref_lattice.
+Print Assumptions C06_flatten_one_level.
 Print Assumptions C06_zero_dims_orig_refuted.
 Print Assumptions C06_zero_dims_repaired.
 Print Assumptions C06_capacity_orig_refuted.
